@@ -174,6 +174,8 @@ def gradient_scenario(cfg):
         fam = estim.FAMS[cfg["fam"]] + [estim.FAMS[cfg["fam"]][0]]        # the first clique is measured twice, with its own noise scale
         ms = estim.measurements(V, dom, fam, sparse_=False)
         eng = mbi.LocalInference(dom, iters=1, marginal_oracle=cfg["oracle"], metric=cfg["metric"])
+        # the estimator object was used before, for other measurements: the objective of a call is about that call's measurements only
+        eng._setup(estim.measurements(V, dom, estim.FAMS["oneway"], tag="old_", sparse_=False), N)
         eng._setup(ms, N)
         model = eng.model
 
